@@ -128,7 +128,11 @@ def run(ctx):
         if mode == "nonce":
             env_s = seed_env
         else:
-            pub = refimpl.group_public_key(hn.lower(), l2, sa, sp, plen)
+            try:
+                pub = refimpl.group_public_key(hn.lower(), l2, sa, sp, plen)
+            except ValueError:
+                ctx.count("real:no_group_public_key_for_this_seed (zero scalar from a tiny private key length)")
+                return
             if repad and sa == "DH":
                 # the same group public key in a structure padded to a different key_length than the root key's parameter structure
                 # (same p, g, y as integers): every fixed-width field follows the key structure's own width
